@@ -500,7 +500,7 @@ BUDGET = {"quick": 90, "thorough": 500}
 
 B_INT = [-3, 0, 7, -12, 5, 9, -1, 4, 11, -6, 2, 8]
 INDEX_KINDS = ("default", "reversed", "dup", "str", "gap", "multi")
-FRAME_SPECS_FREE = ("col", "collist", "cols", "arr", "series", "col+arr", "arr+arr")            # any index kind
+FRAME_SPECS_FREE = ("col", "collist", "cols", "arr", "series", "col+arr", "arr+arr", "series_colname")            # any index kind; series_colname: a key Series that merely CARRIES the name of a value column (df["b"] // 10)
 FRAME_SPECS_LEVEL = ("level", "levelnum", "levels", "by_levelname", "by_levelname1", "col+level", "arr+level", "flatlevel", "by_flatname")   # the index carries the keys
 SERIES_SPECS_FREE = ("arr", "series", "arr+arr", "series+arr")
 SERIES_SPECS_LEVEL = ("level", "levelnum", "levels", "arr+level", "flatlevel")
@@ -583,6 +583,9 @@ class World:
         elif spec == "cols": fa, ck, pa = dict(by=["k", "k2"]), [obj["k"], obj["k2"]], dict(by=["k", "k2"])
         elif spec == "arr": fa, ck, pa = dict(by=a1), [a1], dict(by=a1)
         elif spec == "series": fa, ck, pa = dict(by=ser()), [ser()], dict(by=ser())
+        elif spec == "series_colname":
+            nk = lambda: pd.Series(a1, index=idx, name="b")      # not the column: the column "b" stays a value column (pandas and the core aggregate it)
+            fa, ck, pa = dict(by=nk()), [nk()], dict(by=nk())
         elif spec == "col+arr": fa, ck, pa = dict(by=["k", a2]), [obj["k"], a2], dict(by=["k", a2])
         elif spec == "arr+arr": fa, ck, pa = dict(by=[a1, a2]), [a1, a2], dict(by=[a1, a2])
         elif spec == "series+arr": fa, ck, pa = dict(by=[ser(), a2]), [ser(), a2], dict(by=[ser(), a2])
